@@ -7,16 +7,26 @@ MC   : Partition.tla (pass_packing reorder rules + extract_subgraph run splittin
        TopoOrder: the model can tell a mis-ordered list from a good one.
 S2C  : TLC -simulate of Partition.tla draws DAG x placement; every node becomes a real operator
        (NPU-able or CPU-only kind), the network is compiled by the working tree in a forked interpreter.
+MC   : Fields.tla (what the round trip reader -> graph -> writer must preserve for one CPU-resident operator: option
+       members with zero and non-zero schema defaults, omitted operands, several outputs, optional tensor members at every
+       tensor role) under the policies of the real compiler; five broken policies (skip falsy option values, member
+       unknown to the serialiser, omitted operands filtered, only the first output declared, a clone that drops
+       min / max) must each violate their invariant.  The initial states of the run are the case lattice;
+       harness/c11fields.py binds every case to real schema members (all builtin option tables, parsed from the
+       generated schema classes), operators and tensors; the resulting networks are compiled like the others.
 C2S  : (a) the pass list recorded at build_pass_links / extract_subgraph is validated by PartitionTrace.tla
        with the predicates of Partition.tla; (b) source and output model are read by the plain flatbuffer
        parser (harness/flatmodel.py) and the pair is validated by PreserveTrace.tla: SameInterface,
-       KeptOnce, OutTopo, CustomOpBoundary, Reparse.  Also on networks of the shared corpus.
+       KeptOnce (operator code, version, builtin and custom options, operand / result / intermediate names with
+       positions, constant data), OperandTensors (every member of every tensor table a kept operator refers to),
+       OutTopo, CustomOpBoundary, Reparse; the pass list also for OutputsDeclared.  Also on networks of the shared
+       corpus.
 """
 import json
 import os
 import random
 
-from .. import c11run, corpus, flatmodel, netgen, tlc
+from .. import c11fields, c11run, corpus, flatmodel, netgen, tlc
 from ..common import Run, MachineryError, seed
 
 ACCELS = ["ethos-u55-128", "ethos-u65-256", "ethos-u55-64", "ethos-u65-512", "ethos-u55-256", "ethos-u55-32"]
@@ -282,7 +292,7 @@ def tla_graph(g):
     T = sg["tensors"]
 
     def sig(t):
-        return "%s|%s|%s" % (",".join(map(str, t["shape"])), t["type"], t["quant"])
+        return [t["fields"][f] for f in flatmodel.TENSOR_FIELDS]
 
     def iface(idxs):
         return [[T[i]["name"], sig(T[i])] for i in idxs]
@@ -297,7 +307,8 @@ def tla_graph(g):
                 cdat.append("")
         ops.append({"code": o["code"] if o["code"] != "CUSTOM" else "CUSTOM:" + o["custom_code"],
                     "ver": o["version"], "opts": o["opts_digest"], "copt": o["custom_opts"],
-                    "ins": o["inputs"], "outs": o["outputs"], "cdat": cdat})
+                    "ins": o["inputs"], "outs": o["outputs"], "inter": o["intermediates"], "cdat": cdat,
+                    "tsig": [sig(T[i]) if i >= 0 else [] for i in o["in_idx"] + o["out_idx"] + o["inter_idx"]]})
     return {"ins": iface(sg["inputs"]), "outs": iface(sg["outputs"]), "ops": ops,
             "consts": sorted({t["name"] for t in T if t["const"]})}
 
@@ -374,6 +385,7 @@ def partition_events(t, passlog):
     for e in packed:
         ps = e["passes"]
         ev = {"t": t, "pl": [p["pl"] for p in ps], "na": [p["na"] for p in ps], "prod": [p["prod"] for p in ps],
+              "esc": [p.get("esc", []) for p in ps], "decl": [p.get("decl", []) for p in ps],
               "has_runs": False, "runs": [], "cseq": []}
         x = extracted.get(e["sg"])
         if x is not None and x["m"] == len(ps):
@@ -397,9 +409,9 @@ def explain_preserve(name, ev):
                     what = "names/order %s -> %s" % ([x[0] for x in a], [x[0] for x in b])
                     return "SameInterface|%s|names" % role, what
                 d = [(x, y) for x, y in zip(a, b) if x != y][0]
-                fs, fo = d[0][1].split("|"), d[1][1].split("|")
-                field = ["shape", "type", "quant"][[k for k in range(3) if fs[k] != fo[k]][0]]
-                return "SameInterface|%s|%s" % (role, field), "%s: %s -> %s" % (d[0][0], d[0][1], d[1][1])
+                fields = sig_diff(d[0][1], d[1][1])
+                return ("SameInterface|%s|%s" % (role, ",".join(fields)),
+                        "%s: %s" % (d[0][0], sig_diff_text(d[0][1], d[1][1])))
     if name == "KeptOnce":
         absorbed = {i for a in A for i in a} - set(ev.get("marked", []))
         for i in ev.get("marked", []):
@@ -420,7 +432,7 @@ def explain_preserve(name, ev):
             if not cands:
                 # dead and foldable operators are exempt; TLC decided this one is neither
                 continue
-            diff = [f for f in ("ver", "opts", "copt", "ins", "cdat") if cands[0][f] != o[f]]
+            diff = [f for f in ("ver", "opts", "copt", "ins", "inter", "cdat") if cands[0][f] != o[f]]
             tag = ",".join(diff)
             if diff == ["ver"]:      # which version did it get: the highest one used by this operator type, or another
                 hi = max(q["ver"] for q in S["ops"] if q["code"] == o["code"])
@@ -431,6 +443,18 @@ def explain_preserve(name, ev):
         for i, o in enumerate(S["ops"], 1):
             if i not in absorbed and not [q for q in O["ops"] if q["code"] == o["code"] and q["outs"] == o["outs"]]:
                 return "KeptOnce|missing|%s" % o["code"], "source operator producing %s is neither kept nor absorbed" % o["outs"]
+    if name == "OperandTensors":
+        must = ({i for i in range(1, len(S["ops"]) + 1)} - ({i for a in A for i in a} - set(ev.get("marked", []))))
+        for i in sorted(must):
+            o = S["ops"][i - 1]
+            for q in O["ops"]:
+                if all(q[f] == o[f] for f in ("code", "ver", "opts", "copt", "ins", "outs", "inter", "cdat")) \
+                        and q["tsig"] != o["tsig"]:
+                    names = o["ins"] + o["outs"] + o["inter"]
+                    k = [k for k in range(len(names)) if q["tsig"][k] != o["tsig"][k]][0]
+                    role = "input" if k < len(o["ins"]) else ("output" if k < len(o["ins"]) + len(o["outs"]) else "intermediate")
+                    return ("OperandTensors|%s|%s" % (role, ",".join(sig_diff(o["tsig"][k], q["tsig"][k]))),
+                            "%s tensor %s of kept %s: %s" % (role, names[k], o["code"], sig_diff_text(o["tsig"][k], q["tsig"][k])))
     if name == "OutTopo":
         prod = {}
         for j, o in enumerate(O["ops"]):
@@ -446,7 +470,22 @@ def explain_preserve(name, ev):
     return name, ""
 
 
+def sig_diff(a, b):
+    return [f for f, x, y in zip(flatmodel.TENSOR_FIELDS, a, b) if x != y] or ["length"]
+
+
+def sig_diff_text(a, b):
+    return "; ".join("%s %r -> %r" % (f, x, y) for f, x, y in zip(flatmodel.TENSOR_FIELDS, a, b) if x != y)
+
+
 def explain_partition(name, ev, passes):
+    if name == "OutputsDeclared":
+        for b, (esc, decl) in enumerate(zip(ev["esc"], ev["decl"]), 1):
+            if not set(esc) <= set(decl):
+                p = passes[b - 1] if b - 1 < len(passes) else {"pl": "?", "ops": [], "escnames": []}
+                return ("OutputsDeclared|%s:%s" % (p["pl"], "+".join(p["ops"])),
+                        "pass %d (%s %s) produces %s, used outside the pass, but does not list it among its outputs" % (
+                            b, p["pl"], p["ops"], p.get("escnames")))
     if name == "TopoOrder":
         for b, pr in enumerate(ev["prod"], 1):
             for a in pr:
@@ -463,20 +502,23 @@ GOLDEN = os.path.join(os.path.dirname(os.path.dirname(os.path.abspath(__file__))
 
 
 def negative_controls(run):
-    """Corrupt *frozen* records (harness/golden/c11_controls.json: one mixed CPU/NPU compilation recorded from
-    the unchanged tree) in ways the properties must reject.  Nothing here depends on the tree under test."""
+    """Corrupt *frozen* records (harness/golden/c11_controls.json: compilations recorded from the unchanged tree) in
+    ways the properties must reject.  Nothing here depends on the tree under test."""
     import copy
     with open(GOLDEN) as f:
         gold = json.load(f)
     base, pb = gold["preserve"], gold["partition"]
-    muts = [("golden record itself", None, dict(copy.deepcopy(base), t=0))]
+    muts = [("golden record itself", None, dict(copy.deepcopy(base), t=0)),
+            ("golden record (tensor roles) itself", None, dict(copy.deepcopy(gold["tensors"]), t=1)),
+            ("golden record (float island) itself", None, dict(copy.deepcopy(gold["island"]), t=2))]
 
-    def mut(name, expect, f):
-        e = copy.deepcopy(base)
+    def mut(name, expect, f, rec="preserve"):
+        e = copy.deepcopy(gold[rec])
         f(e)
         e["t"] = len(muts)
         muts.append((name, expect, e))
 
+    FI = {f: k for k, f in enumerate(flatmodel.TENSOR_FIELDS)}
     cpu_j = next(j for j, o in enumerate(base["out"]["ops"]) if o["code"] == "ROUND")
     npu_j = next(j for j, o in enumerate(base["out"]["ops"]) if o["code"] == "CUSTOM:ethos-u")
     src_round = next(i for i, o in enumerate(base["src"]["ops"], 1) if o["code"] == "ROUND")
@@ -496,13 +538,64 @@ def negative_controls(run):
     mut("cpu-marked operator absorbed", "KeptOnce", swallow)
     mut("reverse operator order", "OutTopo", lambda e: (e["out"]["ops"].reverse(), e["absorbed"].reverse()))
     mut("change output quantisation", "SameInterface",
-        lambda e: e["out"]["outs"].__setitem__(0, [e["out"]["outs"][0][0], e["out"]["outs"][0][1] + "x"]))
+        lambda e: e["out"]["outs"][0][1].__setitem__(FI["scale"], e["out"]["outs"][0][1][FI["scale"]] + "x"))
     mut("swap subgraph outputs", "SameInterface", lambda e: e["out"]["outs"].reverse())
     mut("extra NPU result", "CustomOpBoundary",
         lambda e: e["out"]["ops"][npu_j].update(outs=e["out"]["ops"][npu_j]["outs"] + ["bogus"]))
     mut("absorbed claim too large", "CustomOpBoundary",
         lambda e: e["absorbed"].__setitem__(npu_j, sorted(set(e["absorbed"][npu_j]) | {src_round})))
     mut("vela reader rejects", "Reparse", lambda e: e.update(reparse_vela=False))
+
+    # ---- field level, on the record with every tensor role (all tensors carry min / max and a quantised dimension)
+    def out_op(e, code):
+        return next(o for o in e["out"]["ops"] if o["code"] == code)
+
+    def iface_drop(e):        # an NPU-produced subgraph output comes back without min / max
+        k = next(k for k, x in enumerate(e["out"]["outs"]) if x[0] == "tail")
+        e["out"]["outs"][k][1][FI["min"]] = ""
+        e["out"]["outs"][k][1][FI["max"]] = ""
+    mut("NPU-produced subgraph output loses min/max", "SameInterface", iface_drop, "tensors")
+    mut("subgraph input loses its quantised dimension", "SameInterface",
+        lambda e: e["out"]["ins"][0][1].__setitem__(FI["qdim"], "0"), "tensors")
+
+    def operand_drop(k, field, value=""):
+        return lambda e: out_op(e, "CUSTOM:Mix")["tsig"][k].__setitem__(FI[field], value)
+    mut("NPU-produced operand of a CPU operator loses min/max", "OperandTensors", operand_drop(0, "max"), "tensors")
+    mut("constant operand of a CPU operator requantised", "OperandTensors", operand_drop(2, "scale", "0x1.0p-3"), "tensors")
+    mut("state operand of a CPU operator no longer variable", "OperandTensors", operand_drop(3, "variable", "0"), "tensors")
+    mut("result of a CPU operator changes type", "OperandTensors", operand_drop(4, "type", "INT16"), "tensors")
+    mut("intermediate of a CPU operator loses its scale", "OperandTensors", operand_drop(6, "scale"), "tensors")
+
+    def drop_inter(e):
+        o = out_op(e, "CUSTOM:Mix")
+        o["inter"] = []
+        o["tsig"] = o["tsig"][:-1]
+    mut("intermediates of a CPU operator dropped", "KeptOnce", drop_inter, "tensors")
+
+    # ---- field level, on the float island record
+    def compact(e):           # omitted operands left out: later operands move to the left
+        o = out_op(e, "CUSTOM:OptionalInputs")
+        keep = [k for k, t in enumerate(o["ins"]) if t != ""]
+        n_in = len(o["ins"])
+        o["tsig"] = [o["tsig"][k] for k in keep] + o["tsig"][n_in:]
+        o["ins"] = [o["ins"][k] for k in keep]
+        o["cdat"] = [o["cdat"][k] for k in keep]
+    mut("omitted operands dropped from the input vector", "KeptOnce", compact, "island")
+    mut("omitted operand shifted to the end", "KeptOnce",
+        lambda e: out_op(e, "CUSTOM:OptionalInputs").update(ins=["f0", "p1_custom_k2", "", ""]), "island")
+    sub_src = next(o for o in gold["island"]["src"]["ops"] if o["code"] == "SUB")
+    if sub_src["opts"] == flatmodel.options_digest("SubOptions", {"FusedActivationFunction": 1}):
+        raise MachineryError("golden island record: SUB does not carry pot_scale_int16 = false")
+    mut("pot_scale_int16 = false reads back as the schema default", "KeptOnce",
+        lambda e: out_op(e, "SUB").update(opts=flatmodel.options_digest("SubOptions", {"FusedActivationFunction": 1})),
+        "island")
+
+    def one_out(e):
+        o = out_op(e, "CUSTOM:ManyOutputs")
+        o["tsig"] = o["tsig"][:len(o["ins"]) + 1]
+        o["outs"] = o["outs"][:1]
+    mut("second output of a CPU operator dropped", "KeptOnce", one_out, "island")
+
     res, viol = tlc.validate_traces("PreserveTrace", "PreserveTrace.cfg", [m[2] for m in muts])
     got = {}
     for t, name in viol:
@@ -510,10 +603,11 @@ def negative_controls(run):
     for k, (name, expect, _) in enumerate(muts):
         if expect is None:
             if got.get(k):
-                raise MachineryError("negative control: the golden record is rejected (%s)" % got[k])
+                raise MachineryError("negative control: the %s is rejected (%s)" % (name, got[k]))
         elif expect not in got.get(k, set()):
             raise MachineryError("negative control '%s' not rejected as %s (got %s)" % (name, expect, got.get(k)))
-    pm = [("golden pass list itself", None, copy.deepcopy(pb))]
+    pm = [("golden pass list itself", None, copy.deepcopy(pb)),
+          ("golden pass list (float island) itself", None, copy.deepcopy(gold["partition_island"]))]
     e = copy.deepcopy(pb)
     e["prod"][1] = e["prod"][1] + [len(e["pl"])]
     pm.append(("producer after consumer", "TopoOrder", e))
@@ -531,6 +625,10 @@ def negative_controls(run):
     e = copy.deepcopy(pb)
     e["runs"], e["cseq"] = [[2], [5], [6]], [1, -1, 3, 4, -2, -3]
     pm.append(("run split in two", "RunsAreMaximal", e))
+    e = copy.deepcopy(gold["partition_island"])     # the two-output pass lists only its first output
+    two = next(i for i, d_ in enumerate(e["decl"]) if len(d_) == 2 and e["pl"][i] == "Cpu")
+    e["decl"][two] = e["decl"][two][:1]
+    pm.append(("second output of a CPU pass not declared", "OutputsDeclared", e))
     for k, (_, _, e) in enumerate(pm):
         e["t"] = k
     res2, viol2 = tlc.validate_traces("PartitionTrace", "PartitionTrace.cfg", [m_[2] for m_ in pm])
@@ -540,10 +638,11 @@ def negative_controls(run):
     for k, (name, expect, _) in enumerate(pm):
         if expect is None:
             if got.get(k):
-                raise MachineryError("negative control: the golden pass list is rejected (%s)" % got[k])
+                raise MachineryError("negative control: the %s is rejected (%s)" % (name, got[k]))
         elif expect not in got.get(k, set()):
             raise MachineryError("negative control '%s' not rejected as %s (got %s)" % (name, expect, got.get(k)))
-    run.cov["negative_controls"] = [m[0] for m in muts[1:]] + [m[0] for m in pm[1:]]
+    run.cov["negative_controls"] = ([m[0] for m in muts if m[1]] + [m[0] for m in pm if m[1]]
+                                    + ["Fields.tla: " + c[2] for c in FIELD_CONTROLS])
 
 
 def _validate(module, cfg, events, timeout=1800):
@@ -568,6 +667,43 @@ def model_check(run, tier):
     run.add_mc("Partition(AllowExtra control: TopoOrder violated)", ctl)
 
 
+FIELD_CONTROLS = [("Fields_SkipFalsy.cfg", "OptionRoundTrip", "option values that are zero / false are not written"),
+                  ("Fields_Unknown.cfg", "OptionRoundTrip", "the serialiser table does not list the member"),
+                  ("Fields_Filter.cfg", "OperandPositions", "omitted operands are filtered out of the input vector"),
+                  ("Fields_FirstOut.cfg", "OutputsDeclared", "a pass declares only the first output of its operator"),
+                  ("Fields_CloneDrops.cfg", "TensorRoundTrip", "a clone of a tensor does not carry min / max")]
+
+
+def field_lattice(run):
+    """Model check Fields.tla under the policies of the real compiler (all invariants hold) and under each broken
+    policy (the matching invariant must fail); returns the case lattice = the initial states of the good run."""
+    from concurrent.futures import ThreadPoolExecutor
+    d = run.tmpdir("c11fields")
+    dump = os.path.join(d, "lattice")
+
+    def one(item):
+        cfg = item[0]
+        return tlc.run("Fields", cfg, workers=1, coverage=(cfg == "Fields_MC.cfg"), timeout=300,
+                       dump=dump if cfg == "Fields_MC.cfg" else None)
+    with ThreadPoolExecutor(6) as ex:
+        results = list(ex.map(one, [("Fields_MC.cfg",)] + FIELD_CONTROLS))
+    good = tlc.must_ok(results[0], "Fields MC")
+    run.add_mc("Fields(all cases, policies of the compiler)", good)
+    if good["actions"].get("Fields.Compile", 0) == 0:
+        raise MachineryError("vacuity: Fields.Compile never taken")
+    for (cfg, inv, what), res in zip(FIELD_CONTROLS, results[1:]):
+        if res["status"] != "invariant" or res.get("violated") != inv:
+            raise MachineryError("control %s (%s) must violate %s in the model, got %s %s" % (
+                cfg, what, inv, res["status"], res.get("violated")))
+        run.add_mc("Fields(control %s: %s violated)" % (cfg[7:-4], inv), res)
+    path = dump + ".dump" if os.path.exists(dump + ".dump") else dump
+    states = c11fields.parse_dump(open(path).read())
+    cases = [st["case"] for st in states if st.get("stage") == "src"]
+    if len(cases) < 50 or {c["sort"] for c in cases} != {"option", "operand", "output", "tensor"}:
+        raise MachineryError("Fields.tla produced an implausible case lattice (%d cases)" % len(cases))
+    return cases
+
+
 def build_jobs(tier, sd, run):
     rng = random.Random(sd)
     quick = tier == "quick"
@@ -576,6 +712,8 @@ def build_jobs(tier, sd, run):
     jobs, meta = [], []
     for gi, g in enumerate(graphs):
         net, kinds = instantiate(g, random.Random(sd * 7919 + gi), sd * 1000 + gi)
+        if gi % 2:        # every other network also stores min / max on some of its feature maps
+            net = c11fields.dress_minmax(net, random.Random(sd * 7919 + gi + 1))
         ncfg = 1 if quick else 2
         for ci in range(ncfg):
             if ci == 0:
@@ -584,9 +722,20 @@ def build_jobs(tier, sd, run):
                 opts = corpus.config_point(rng)
             jobs.append({"id": len(jobs), "net": net, "opts": opts})
             meta.append({"family": "partition", "graph": g, "kinds": kinds, "opts": opts})
+    # ---- field level: the case lattice of Fields.tla bound to schema members / operators / tensors
+    cases = field_lattice(run)
+    nets, uninst = c11fields.plan(cases, tier, sd, random.Random(sd * 104729 + 3))
+    for k, net in enumerate(nets):
+        planned = net.pop("c11_cases")
+        opts = {"accel": ACCELS[k % 2]} if quick or k % 2 == 0 else corpus.config_point(rng)
+        jobs.append({"id": len(jobs), "net": net, "opts": opts})
+        meta.append({"family": "fields", "opts": opts, "cases": planned})
+    run.cov["field_cases"] = {"lattice": len(cases), "without_instance": uninst,
+                              "all_keys": sorted(c11fields.case_key(c) for c in cases)}
     ncorp = 60 if quick else 600
-    for e in corpus.draw(ncorp, sd + 5):
-        jobs.append({"id": len(jobs), "net": e["net"], "opts": e["opts"]})
+    for ci, e in enumerate(corpus.draw(ncorp, sd + 5)):
+        net = c11fields.dress_minmax(e["net"], random.Random(sd * 31 + ci)) if ci % 2 else e["net"]
+        jobs.append({"id": len(jobs), "net": net, "opts": e["opts"]})
         meta.append({"family": e["family"], "opts": e["opts"]})
     return jobs, meta
 
@@ -617,6 +766,7 @@ def _main(run, tier):
     results = c11run.compile_many(jobs, timeout=600)
     pres, part, part_passes = [], [], {}
     crashes = {}
+    seen_cases, seen_members = {}, set()
     for job, m, r in zip(jobs, meta, results):
         t = job["id"]
         run.evaluated()
@@ -634,6 +784,12 @@ def _main(run, tier):
             nnpu = len(ev["out"]["ops"]) - ncpu
             if ncpu and nnpu:
                 run.nontrivial((m["family"], tuple(m.get("kinds", [])), tuple(o["code"] for o in ev["out"]["ops"])))
+            if m["family"] == "fields":
+                for key, what in m["cases"]:
+                    seen_cases.setdefault(key, what)
+                    run.nontrivial(("fields", key))
+                    if key.startswith("option|"):
+                        seen_members.add(what.split("=")[0])
             if len(run.cov["samples"]) < 4 and ncpu and nnpu:
                 run.sample({"family": m["family"], "kinds": m.get("kinds"), "opts": m["opts"],
                             "out_ops": [(o["code"], o["ins"][4:] if o["code"] == "CUSTOM:ethos-u" else o["ins"], o["outs"])
@@ -656,7 +812,7 @@ def _main(run, tier):
     for t, name in viol1:
         for k, e in enumerate(by_t_part[t]):
             key, what = explain_partition(name, e, part_passes[t][k] if k < len(part_passes[t]) else [])
-            if name == "TopoOrder" and not key.startswith("TopoOrder|"):
+            if name in ("TopoOrder", "OutputsDeclared") and not key.startswith(name + "|"):
                 continue
             run.violation(key, "%s: %s [%s %s]" % (name, what, meta[t]["family"], meta[t].get("kinds", "")),
                           {"net": jobs[t]["net"], "opts": jobs[t]["opts"], "passes": part_passes[t], "event": e})
@@ -669,6 +825,21 @@ def _main(run, tier):
     negative_controls(run)
     run.cov["model_drift"] = {"partition_transcription_vs_code": len(drift), "examples": drift[:5]}
     run.cov["compilations"] = {"total": len(jobs), "compiled": len(pres), "not_compiled": crashes}
+    fc = run.cov["field_cases"]
+    all_keys = fc.pop("all_keys")
+    fc["observed_in_a_compiled_model"] = len(set(all_keys) & set(seen_cases))
+    fc["not_observed"] = sorted(set(all_keys) - set(seen_cases))
+    fc["by_sort"] = {srt: "%d/%d" % (len([k for k in seen_cases if k.startswith(srt + "|")]),
+                                      len([k for k in all_keys if k.startswith(srt + "|")]))
+                     for srt in ("option", "operand", "output", "tensor")}
+    fc["option_members_bound"] = len(seen_members)
+    fc["option_members_in_schema"] = sum(len(v) for v in c11fields.schema_members().values())
+    fc["tensor_classes_switched_off"] = dict(c11fields.TENSOR_CLASSES_OFF)
+    fc["option_values_switched_off"] = {"%s.%s=%r" % k: v for k, v in c11fields.OPTION_VALUES_OFF.items()}
+    fc["option_members_switched_off"] = {"%s.%s" % k: v for k, v in c11fields.OPTION_MEMBERS_OFF.items()}
+    for srt in ("option", "operand", "output", "tensor"):
+        if not [k for k in all_keys if k.startswith(srt + "|")]:
+            raise MachineryError("field lattice has no %s case" % srt)
     run.cov["rule"] = ("graphs = final states of Partition.tla behaviours drawn by TLC -simulate (DAG x placement, extra "
                        "non-IFM operands allowed), each node instantiated as a real NPU-able / CPU-only / memory-only "
                        "operator, plus networks of the shared corpus; every compilation runs in its own forked interpreter; "
